@@ -607,6 +607,40 @@ func handlerRule(c *Check, h, builder *ssa.Function, _ []mopLite, overall, ready
 				bodyOK = true
 			}
 		}
+		// json.Marshal(snapshot) whose bytes are written to the response
+		if sc := staticCallee(cl.Common()); sc != nil && sc.String() == "encoding/json.Marshal" && len(cl.Call.Args) == 1 && strip(cl.Call.Args[0]) == ssa.Value(m) {
+			allInstrs(h, func(in2 ssa.Instruction) {
+				wc, ok := in2.(*ssa.Call)
+				if !ok || !wc.Common().IsInvoke() || wc.Common().Method.Name() != "Write" || len(wc.Common().Args) != 1 {
+					return
+				}
+				found := false
+				var walk func(o *Org, d int)
+				walk = func(o *Org, d int) {
+					if o == nil || d > 6 || found {
+						return
+					}
+					if o.K == "call" && o.V == ssa.Value(cl) {
+						found = true
+						return
+					}
+					if o.K == "call" {
+						if c2, ok := o.V.(*ssa.Call); ok {
+							for _, a := range c2.Call.Args {
+								walk(NewResolver(p).Of(a), d+1)
+							}
+						}
+					}
+					for _, s := range o.Sub {
+						walk(s, d+1)
+					}
+				}
+				walk(NewResolver(p).Of(wc.Common().Args[0]), 0)
+				if found {
+					bodyOK = true
+				}
+			})
+		}
 	})
 	// ... and is rendered into storage of this request only: the response
 	// writer itself or a buffer allocated in this activation. A scratch
